@@ -546,6 +546,9 @@ def gen_type(repo, d, body, report):
         t = toks[i]
         if t.text == "#" and toks[i + 1].text == "[":
             cl = match_close(toks, i + 1)
+            if toks[i + 2].text == "repr":
+                i = cl + 1
+                continue
             edits.add(t.start, toks[cl].end, "", "R3", "attribute removed: " + norm(src.text[t.start:toks[cl].end])[:120])
             stats["R3"] = stats.get("R3", 0) + 1
             i = cl + 1
